@@ -18,7 +18,8 @@ Record fsim := mkFS {
   fs_st : state;
   fs_notint : list N;      (* ids OnlyInterested currently rejects *)
   fs_susp : bool;
-  fs_log : list lentry     (* reversed *)
+  fs_log : list lentry;    (* reversed *)
+  fs_tr : list (Z * event) (* the events chosen so far, reversed *)
 }.
 
 Definition interesting (s : fsim) (ids : list N) : list N :=
@@ -40,7 +41,8 @@ Fixpoint fire_passes (c : cfg) (fuel : nat) (s : fsim) (T : Z) : fsim :=
         let ints := interesting s all in
         let '(st2, rq) := step true c st1 due (ETimer ints [] []) in
         fire_passes c f (mkFS st2 (fs_notint s) (fs_susp s)
-                           (log_reqs due rq ++ LPass due all ints :: fs_log s)) T
+                           (log_reqs due rq ++ LPass due all ints :: fs_log s)
+                           ((due, ETimer ints [] []) :: (due, ETick) :: fs_tr s)) T
       else s
     | None => s
     end
@@ -53,16 +55,19 @@ Definition sim_fop (c : cfg) (fuel : nat) (s0 : fsim) (T : Z) (op : fop) : fsim 
     let ints := interesting s ids in
     let '(st1, rq) := step true c (fs_st s) T (ENotify peer ids atime ints (fs_susp s) []) in
     mkFS st1 (fs_notint s) (fs_susp s) (log_reqs T rq ++ LNotify T peer atime ints :: fs_log s)
+         ((T, ENotify peer ids atime ints (fs_susp s) []) :: fs_tr s)
   | FReceived ids =>
     let '(st1, _) := step true c (fs_st s) T (EReceived ids) in
-    mkFS st1 (fs_notint s) (fs_susp s) (LRecv T ids :: fs_log s)
+    mkFS st1 (fs_notint s) (fs_susp s) (LRecv T ids :: fs_log s) ((T, EReceived ids) :: fs_tr s)
   | FInterest id b =>
-    if b then mkFS (fs_st s) (filter (fun x => negb (x =? id)%N) (fs_notint s)) (fs_susp s) (fs_log s)
-    else mkFS (fs_st s) (id :: fs_notint s) (fs_susp s) (LUninterest T id :: fs_log s)
+    if b then mkFS (fs_st s) (filter (fun x => negb (x =? id)%N) (fs_notint s)) (fs_susp s) (fs_log s) (fs_tr s)
+    else mkFS (fs_st s) (id :: fs_notint s) (fs_susp s) (LUninterest T id :: fs_log s) (fs_tr s)
   | FSuspend b =>
-    mkFS (fs_st s) (fs_notint s) b (if b then fs_log s else LUnsuspend T :: fs_log s)
-  | FEnd => mkFS (fs_st s) (fs_notint s) (fs_susp s) (LEnd T :: fs_log s)
+    mkFS (fs_st s) (fs_notint s) b (if b then fs_log s else LUnsuspend T :: fs_log s) (fs_tr s)
+  | FEnd => mkFS (fs_st s) (fs_notint s) (fs_susp s) (LEnd T :: fs_log s) (fs_tr s)
   end.
 
+Definition sim_fetcher (c : cfg) (fuel : nat) (sc : list (Z * fop)) : fsim :=
+  fold_left (fun s x => sim_fop c fuel s (fst x) (snd x)) sc (mkFS (init 0%Z) [] false [] []).
 Definition simulate_fetcher (c : cfg) (fuel : nat) (sc : list (Z * fop)) : list lentry :=
-  rev (fs_log (fold_left (fun s x => sim_fop c fuel s (fst x) (snd x)) sc (mkFS (init 0%Z) [] false []))).
+  rev (fs_log (sim_fetcher c fuel sc)).
